@@ -89,7 +89,8 @@ impl HybridConversionInfo {
     /// Creates a new instance.
     ///
     /// ## Errors
-    /// if `site_domain` is not a valid ASCII string.
+    /// if `site_domain` is not a valid ASCII string or contains a NUL character
+    /// (NUL delimits the site domain in the serialized form).
     pub fn new(
         key_id: KeyIdentifier,
         conversion_site_domain: &str,
@@ -97,7 +98,7 @@ impl HybridConversionInfo {
         epsilon: f64,
         sensitivity: f64,
     ) -> Result<Self, NonAsciiStringError> {
-        if !conversion_site_domain.is_ascii() {
+        if !conversion_site_domain.is_ascii() || conversion_site_domain.contains('\0') {
             return Err(conversion_site_domain.into());
         }
 
